@@ -279,10 +279,48 @@ def exec_equiv(trace, ctx):
              if f.startswith("mapped_") and os.path.join(r, f) != cli_out]
     if extra:
         ctx.violate(P, "default-output-name", f"unexpected output files {extra} (requested output: {os.path.basename(cli_out)})")
+    if relative == "cwd" and len(world["species"]) >= 2 and len(trace["order"]) == len(world["species"]) and trace["np_seed"] % 2 == 0:
+        _second_run_same_names(trace, ctx, world, d, scale)
     ctx.nontrivial = True
     ctx.op("equiv", f"{len(triples)}sp")
     ctx.sig.append((tuple(trace["order"]), trace["outfile"], trace["scale_given"], len(world["instances"]),
                     tuple(len(s["start"]["positions"]) for s in world["species"])))
+
+
+def _second_run_same_names(trace, ctx, world, d, scale):
+    """The tool is run a SECOND time in the same process, in another directory whose files carry the same names -- but the
+    names of the first two species' files are swapped (another project that happens to use the same file names).  The same
+    relative path strings now denote other molecules; the output must again equal the library workflow's."""
+    d2 = os.path.join(d, "second")
+    os.makedirs(d2, exist_ok=True)
+    paths = W.write_world(d2, world, itp_style=int(trace.get("itp_style") or 0))
+    a_, b_ = paths["species"][0], paths["species"][1]
+    for key in ("top_start", "gro_end", "top_end"):
+        tmp_ = a_[key] + ".swap"
+        os.rename(a_[key], tmp_)
+        os.rename(b_[key], a_[key])
+        os.rename(tmp_, b_[key])
+    # (species 0's molecule now lives in the files NAMED after species 1 and vice versa)
+    by_species = {0: b_, 1: a_}
+    for k_ in range(2, len(paths["species"])):
+        by_species[k_] = paths["species"][k_]
+    triples = [(by_species[s_]["top_start"], by_species[s_]["gro_end"], by_species[s_]["top_end"]) for s_ in trace["order"]]
+    rel = lambda p_: os.path.relpath(p_, d2)
+    argv = [rel(paths["system"])]
+    for t in triples:
+        argv += ["--mol", *[rel(x) for x in t]]
+    argv += ["--scale", repr(scale), "-o", "second_cli.gro"]
+    s1, s2 = Sink(), Sink()
+    try:
+        run_main(argv, trace["np_seed"], trace["steps_factor"], s1, cwd=d2)
+        run_library(paths["system"], triples, scale, os.path.join(d2, "second_lib.gro"), trace["np_seed"], trace["steps_factor"], s2)
+    except (SystemExit, Exception) as e:
+        ctx.violate(P, "cli-raised", f"second run in the same process (same relative file names, other contents) raised "
+                                     f"{type(e).__name__}: {e}", key="second-run")
+        return
+    _compare_outputs(ctx, os.path.join(d2, "second_cli.gro"), os.path.join(d2, "second_lib.gro"), s1.digest(), s2.digest(),
+                     "second run in the same process, same relative names")
+    ctx.probe("second_run_same_relative_names")
 
 
 def exec_equiv_shipped(trace, ctx):
